@@ -19,7 +19,7 @@ for m in sorted(glob.glob('/verif/seeded/*/*/meta.json')):
     rows.append("| %s | %s (%s) | %s |" % (d['seed'], title.replace('|', '\\|'), files, res.replace('|', '\\|')))
 tab = "| seed | change | outcome |\n|---|---|---|\n" + "\n".join(rows)
 caught = sum(1 for r in rows if '**caught**' in r)
-tab += "\n\n%d of %d seeded changes are caught. The misses are all in code that is not under contract, for the reason given; none is a change inside a function under contract that the check failed to notice.\n" % (caught, len(rows))
+tab += "\n\n%d of %d seeded changes are caught. The misses are all in code that is not under contract, for the reason given; none is a change inside a function under contract that the check failed to notice - with one qualification: C11/g (round 3) sits inside `Machine_json.Dejsoner`, which is under contract, and in the first pass it was reported only because the change restructures the loops (inventory guard), not because a postcondition failed: the contract spoke about opcodes registered *before* the call and was silent about the one the loop's own `EventuallyCreateInstruction` call creates. The invariant `current` closes that hole. Likewise C16/h is reported because it renames locals the invariants of `Arch.Assembler` mention, not by a failed clause.\n" % (caught, len(rows))
 s = open('/verif/DESIGN.md').read()
 s = re.sub(r'<!-- seed-matrix-begin -->.*<!-- seed-matrix-end -->', lambda _: '<!-- seed-matrix-begin -->\n' + tab + '<!-- seed-matrix-end -->', s, flags=re.S)
 open('/verif/DESIGN.md', 'w').write(s)
